@@ -89,8 +89,12 @@ def run_pipeline(cx: Ctx, proto, vals, parts, pipeline: str, rng=None, cpp_batch
             want = "binary" if hop.endswith("bin") else "ndjson"
             assert fmt == want, (pipeline, fmt)
             stream = P.binary_input(data, rng, chunk_mode) if fmt == "binary" else (P.text_input(data, rng, chunk_mode) if rng else io.StringIO(data))
+            # half of the reads gather each stream into a list before looking at the items, as
+            # `items = list(reader.read_x())` does: values already handed out must not change afterwards
+            collect = bool(rng is not None and rng.chance(0.5))
+            cx.bump("py_read_collect_then_inspect" if collect else "py_read_item_by_item")
             with runner.time_limit(60):
-                d, err, closed = P.read_all(model, proto, fmt, stream)
+                d, err, closed = P.read_all(model, proto, fmt, stream, collect=collect)
             if err is not None:
                 return "%s raised %r" % (hop, err)
             return sw.flat_equal(env, ns, proto, flat, d, numeric)
@@ -213,6 +217,13 @@ def model_task(task, ybin, root, prop):
     pkg = sw.stream_package(rng.next(), cfg=cfg, for_cpp=want_cpp)
     if json_involved:
         steer(pkg, rng.fork("steer"), with_dates=not want_cpp)
+    if prop == "C01":
+        # every binary model carries streams of numeric arrays (whole-buffer fast paths of the runtimes)
+        protos0 = [d for d in pkg.defs() if isinstance(d, M.Protocol)]
+        if protos0:
+            ar = rng.fork("steerarr")
+            protos0[0].steps.append(("steerarr", M.Arr(M.Prim(ar.choice(["float32", "int16", "float64", "uint8", "complexfloat32"])), ar.choice([None, 1, 2, ((None, 3),)])), True))
+            protos0[0].steps.append(("steerfix", M.Arr(M.Prim(ar.choice(["float32", "int8", "float64"])), ((None, 2), (None, 2))), True))
     model = P.PyModel(pkg, ybin, root, want_cpp=want_cpp, cpp_opts=C.CPP_OPTS)
     stats, viols, cases = {"models_with_cpp": 1 if want_cpp else 0}, [], []
     try:
